@@ -262,7 +262,58 @@ class C07(Prop):
                 'reported_tried': int(out['total_number_samples']), 'entries': int(np.asarray(out['moment_tensor_space']).shape[1]),
                 'accepted': int(out['accepted']), 'entry_likelihood_dev': dev}
 
+    def _front_end_constraint(self, want_dc, algname, seed):
+        """The double-couple constraint requested from the inversion front end must reach the chain it builds."""
+        import os
+        import tempfile
+        np = self.np
+        from MTfit import inversion as inv
+        rs = np.random.RandomState(seed)
+        n = 6
+        st = {'Name': ['S%d' % i for i in range(n)], 'Azimuth': np.matrix(rs.uniform(0, 360, n)).T, 'TakeOffAngle': np.matrix(rs.uniform(20, 160, n)).T}
+        data = {'PPolarity': {'Stations': st, 'Measured': np.matrix(np.sign(rs.randn(n))).T, 'Error': np.matrix(0.5 * np.ones((n, 1)))}, 'UID': 'c07fe'}
+        cwd = os.getcwd()
+        d = tempfile.mkdtemp(prefix='c07fe_')
+        os.chdir(d)
+        try:
+            I = inv.Inversion(data, dc=want_dc, algorithm=algname, parallel=False, chain_length=60, burn_length=0, learning_length=20, acceptance_rate_window=10,
+                              phy_mem=0.1, convert=False, initial_sample='grid', min_number_initialisation_samples=200)
+            a_pol, err_pol, ipp = inv.polarity_matrix(data)
+            np.random.seed(seed)
+            task = inv.McMCForwardTask(I.kwargs, a_pol, err_pol, False, False, False, False, False, False, False, ipp, normalise=True, convert=False)
+            out = task()['algorithm_output_data']
+        finally:
+            os.chdir(cwd)
+            import shutil
+            shutil.rmtree(d, ignore_errors=True)
+        M = np.asarray(out['moment_tensor_space'], dtype=float)
+        r2 = 1 / math.sqrt(2)
+        m33 = np.zeros((M.shape[1], 3, 3))
+        m33[:, 0, 0], m33[:, 1, 1], m33[:, 2, 2] = M[0], M[1], M[2]
+        m33[:, 0, 1] = m33[:, 1, 0] = r2 * M[3]
+        m33[:, 0, 2] = m33[:, 2, 0] = r2 * M[4]
+        m33[:, 1, 2] = m33[:, 2, 1] = r2 * M[5]
+        w = np.linalg.eigvalsh(m33)
+        non_dc = int(np.sum((np.abs(w[:, 1]) > 1e-7) | (np.abs(w.sum(1)) > 1e-7)))
+        return {'algorithm': algname, 'requested_dc': want_dc, 'algorithm_dc_flag': bool(getattr(I.algorithm, 'dc', None)), 'entries': int(M.shape[1]),
+                'entries_not_double_couple': non_dc}
+
     def extra(self, rng, tier):
+        fe = []
+        fe_fails = []
+        for want_dc, algname, seed in ([(True, 'mcmc', 21)] if tier == 'quick' else [(True, 'mcmc', 21), (True, 'transdmcmc', 22), (False, 'mcmc', 23)]):
+            r = self._front_end_constraint(want_dc, algname, seed)
+            fe.append(r)
+            if want_dc and algname == 'mcmc' and (r['entries_not_double_couple'] or not r['algorithm_dc_flag']):
+                fe_fails.append(Failure('property', {'kind': 'front-end-dc', 'algorithm': algname, 'seed': seed},
+                                        'a double-couple constrained Markov-chain run requested from the inversion front end (Inversion(dc=True, algorithm=%r)) built a chain '
+                                        'with dc=%s; %d of its %d recorded entries are not double-couples' % (algname, r['algorithm_dc_flag'], r['entries_not_double_couple'], r['entries']),
+                                        key='front-end-dc'))
+        cov0, fails0 = self._extra_rest(rng, tier)
+        cov0['front_end_constraint'] = fe
+        return cov0, fe_fails + fails0
+
+    def _extra_rest(self, rng, tier):
         runs = [(True, 3000, 11), (False, 4000, 12)] if tier == 'quick' else [(True, 20000, 11), (False, 40000, 12), (False, 40000, 13)]
         cov, fails = {'posterior_runs': [], 'driver_runs': []}, []
         for dc, seed in ([(False, 5)] if tier == 'quick' else [(False, 5), (True, 6), (False, 7)]):
